@@ -20,8 +20,9 @@ import mido.ports as mports  # noqa: E402
 import mido.backends._parser_queue as pqmod  # noqa: E402
 
 TRACED = ('mido/ports.py', 'mido/parser.py', 'mido/tokenizer.py', 'mido/sockets.py',
-          'mido/backends/_parser_queue.py')
-KINDS = ('locked_old', 'locked_new', 'echo', 'ioport', 'multi', 'multi_yield', 'pq')
+          'mido/backends/_parser_queue.py', 'mido/midifiles/tracks.py', 'mido/midifiles/midifiles.py',
+          'mido/midifiles/units.py')
+KINDS = ('locked_old', 'locked_new', 'echo', 'ioport', 'multi', 'multi_yield', 'pq', 'pair')
 MSG_SHAPES = ('note_on', 'control_change', 'program_change', 'pitchwheel', 'sysex', 'sysex', 'songpos', 'note_off',
               'rt')
 RT_NAMES = ('clock', 'start', 'continue', 'stop', 'active_sensing', 'reset')
@@ -119,6 +120,7 @@ class Wire:
     def __init__(self):
         self.buf = []
         self.log = []
+        self.start = 0
 
 
 class LockedDev(mports.BaseIOPort):
@@ -225,7 +227,7 @@ class PortsConc(BaseEngine):
         return {'prop': prop, 'kind': kind, 'n_sub': n_sub,
                 'sub_kinds': [pick(rng, ('echo', 'locked_old', 'locked_new')) for _ in range(n_sub)],
                 'senders': senders, 'receivers': receivers, 'mutate_after_send': rng.random() < 0.7,
-                'receivers_mutate': rng.random() < 0.4,
+                'receivers_mutate': rng.random() < 0.4, 'prelude': rng.random() < 0.25,
                 'chunks': [rng.randint(1, 4) for _ in range(8)], 'pq_whole': rng.random() < 0.5, 'pq_batch': [pick(rng, (1, 1, 2, 3, 4)) for _ in range(3)],
                 'sleep_time': pick(rng, (1e-4, 1e-3, 1e-2, 0.5)), 'start_time': pick(rng, (0.0, 100.0, 1.7e9)),
                 'sched': sched, 'sched_seed': derive(prop, seed, idx, 'sched'), 'decisions': [], 'total': total}
@@ -240,6 +242,15 @@ class PortsConc(BaseEngine):
         base['senders'] = [[] for _ in wires]
         base['receivers'] = []
         base['chunks'] = [rng.randint(1, 6) for _ in range(rng.randint(1, 8))]
+        return base
+
+    def gen_twin_files(self, prop, seed, idx, files, rng):
+        """Two threads, each iterating and measuring its OWN MidiFile (independent objects)."""
+        base = self.gen(prop, seed, idx, 'quick')
+        base['kind'] = 'twin_files'
+        base['files'] = files          # [{'tpb':..., 'tracks': [[ [delta, kind, arg] ...]]}, ...]
+        base['senders'] = [[] for _ in files]
+        base['receivers'] = []
         return base
 
     def gen_raw(self, prop, seed, idx, wire, rng):
@@ -341,8 +352,12 @@ class PortsConc(BaseEngine):
         elif kind in ('multi', 'multi_yield'):
             subs = [dev(k) for k in plan['sub_kinds'][:plan['n_sub']]]
             port = mports.MultiPort(subs, yield_ports=(kind == 'multi_yield'))
-        elif kind == 'twin_parsers':
+        elif kind in ('twin_parsers', 'twin_files'):
             port = None
+        elif kind == 'pair':
+            # two independent device ports used side by side: nothing sent on one may show up on the other
+            subs = [dev(k if k != 'echo' else 'locked_old') for k in (plan['sub_kinds'] * 2)[:2]]
+            port = subs[0]
         else:
             port = RtLikeInput('rt')
         return port, subs, wires
@@ -350,6 +365,23 @@ class PortsConc(BaseEngine):
     def _simulate(self, plan, sched, log, stats, cov, tshim):
         kind = plan['kind']
         port, subs, wires = self._build(plan)
+        if plan.get('prelude') and kind in ('locked_old', 'locked_new', 'ioport', 'pair', 'echo') and plan['senders'] \
+                and plan['senders'][0]:
+            # earlier traffic on the same port, before the threads start: the very encoding sender 0 will send first
+            # went through once already, and its receiver edited the object it got
+            shape, pad = plan['senders'][0][0]
+            try:
+                pre = make_msg(shape, 0, 0, pad)
+                port.send(pre)
+                r = port.poll()
+                if r is not None:
+                    mutate(r)
+                stats['fault:earlier_traffic_same_encoding'] += 1
+            except Exception as e:
+                raise Violation(f'raised:{type(e).__name__}@{kind}.prelude', f'single-threaded send/poll before the '
+                                                                             f'threads started raised {e!r}')
+            for w in wires:
+                w.start = len(w.log)
         hist = []            # (thread, op, invoke_seq, return_seq, result)
         sent = []            # (sender, seq, original copy, invoke_seq)
         errors = []
@@ -430,8 +462,22 @@ class PortsConc(BaseEngine):
             record(f'S{si}', 'twin_done', sched.total_steps, len(out))
             done['senders'] += 1
 
+        def files_body(si):
+            mf = twin_files[si]
+            out = []
+            for _ in range(2):
+                inv, res = guarded(f'S{si}', 'iterate', list, mf)
+                out.append([snap_msg(m) for m in res])
+                inv, res = guarded(f'S{si}', 'length', lambda: mf.length)
+                out.append(repr(res))
+            twin_out[si] = out
+            record(f'S{si}', 'files_done', sched.total_steps, len(out))
+            done['senders'] += 1
+
         def sender_body(si):
             def body():
+                if kind == 'twin_files':
+                    return files_body(si)
                 if kind == 'twin_parsers':
                     return twin_body(si)
                 if kind == 'pq_raw':
@@ -442,7 +488,7 @@ class PortsConc(BaseEngine):
                     m = make_msg(shape, si, seq, pad)
                     orig = m.copy()
                     sent.append((si, seq, orig, sched.total_steps, m))
-                    inv, _ = guarded(f'S{si}', 'send', port.send, m)
+                    inv, _ = guarded(f'S{si}', 'send', (subs[si % 2] if kind == 'pair' else port).send, m)
                     record(f'S{si}', 'send', inv, (si, seq))
                     if plan['mutate_after_send']:
                         mutate(m)
@@ -533,7 +579,9 @@ class PortsConc(BaseEngine):
             def body():
                 for op in plan['receivers'][ri]:
                     k, tgt = op[0], op[1]
-                    p = target(tgt)
+                    if kind == 'pair':
+                        tgt = ri % 2
+                    p = subs[tgt] if kind == 'pair' else target(tgt)
                     curop[th] = k
                     if k == 'poll':
                         inv, res = guarded(th, 'poll', p.poll)
@@ -627,6 +675,16 @@ class PortsConc(BaseEngine):
         sched.on_idle = on_idle
 
         twin_ref = {}
+        twin_files = []
+        if kind == 'twin_files':
+            from .playback import build_msg
+            for si, f in enumerate(plan['files']):
+                tracks = [mido.MidiTrack(build_msg(e[1:], e[0]) for e in tr) for tr in f['tracks']]
+                mf = mido.MidiFile(type=1, ticks_per_beat=f['tpb'], tracks=tracks)
+                twin_files.append(mf)
+                seq = [snap_msg(m) for m in mf]
+                ln = repr(mf.length)
+                twin_ref[si] = [seq, ln, seq, ln]
         if kind == 'twin_parsers':
             from mido.parser import Parser
             for si, w in enumerate(plan['wires']):
@@ -673,6 +731,17 @@ class PortsConc(BaseEngine):
                             f'{progress["starved"][0]} stayed inside a blocking receive for 25 idle rounds of the '
                             f'simulated clock while {progress["starved"][1]} item(s) were deliverable on its port')
 
+        if kind == 'twin_files':
+            if sched.abort_reason not in ('stepcap',):
+                for si, outs in sorted(twin_out.items()):
+                    if outs != twin_ref[si]:
+                        raise Violation('threads:files-not-independent',
+                                        f'thread {si} iterating/measuring its own MidiFile while another thread did the '
+                                        f'same with another file got {str(outs)[:300]}..., alone it gives '
+                                        f'{str(twin_ref[si])[:300]}...')
+            cov.add('twin_files')
+            stats['probe:twin_file_threads'] += 1
+            return
         if kind == 'twin_parsers':
             if sched.abort_reason not in ('stepcap',):
                 for si, outs in sorted(twin_out.items()):
@@ -695,7 +764,8 @@ class PortsConc(BaseEngine):
             if kind in ('pq', 'pq_raw'):
                 drained = [(m, -1) for m in port._queue.iterpoll()]
             else:
-                for tgt, p in [(-1, port)] + [(i, s) for i, s in enumerate(subs) if kind.startswith('multi')]:
+                for tgt, p in ([(-1, port)] if kind != 'pair' else []) + \
+                        [(i, s) for i, s in enumerate(subs) if kind.startswith('multi') or kind == 'pair']:
                     for m in p.iter_pending():
                         drained.append((m, tgt))
         except Exception as e:
@@ -788,7 +858,7 @@ class PortsConc(BaseEngine):
         # wire image: concatenation of complete encodings of sent messages
         for w in wires:
             pos = 0
-            log = w.log
+            log = w.log[w.start:]
             anon_wire = collections.Counter()
             while pos < len(log):
                 # a complete encoding starts with a status byte and runs to the next status byte / F7
@@ -819,7 +889,7 @@ class PortsConc(BaseEngine):
                     raise Violation(f'wire-mixed@{kind}', f'wire image is not a concatenation of the sent encodings: '
                                                           f'{bytes(log).hex(" ")}')
                 pos = end
-            if log and not incomplete and anon_wire != sent_rt and kind != 'pq':
+            if log and not incomplete and anon_wire != sent_rt and kind not in ('pq', 'pair'):
                 raise Violation(f'wire-mixed@{kind}', f'real-time bytes on a device wire {dict(anon_wire)} differ from '
                                                       f'the real-time messages sent {dict(sent_rt)}')
         # exactly once, intact, copy
@@ -843,6 +913,9 @@ class PortsConc(BaseEngine):
                 raise Violation(f'corrupt-or-invented@{kind}', f'{th}.{op} returned {m!r}, which no sender sent '
                                                                f'(mixed, mutated or invented)')
             orig, sinv, obj = by_id[key]
+            if kind == 'pair' and tgt != key[0] % 2:
+                raise Violation('cross-port@pair', f'{th}.{op} on port {tgt} returned {m!r}, which was sent on the other, '
+                                                   f'independent port')
             if m != orig:
                 raise Violation(f'corrupt-or-mutated@{kind}', f'{th}.{op} returned {m!r}, sent was {orig!r}')
             if (m is obj or (clone_ids or {}).get(id(m)) is obj) and kind != 'pq':
@@ -920,6 +993,8 @@ class PortsConc(BaseEngine):
             yield replace_at(plan, ('mutate_after_send',), False)
         if plan.get('receivers_mutate'):
             yield replace_at(plan, ('receivers_mutate',), False)
+        if plan.get('prelude'):
+            yield replace_at(plan, ('prelude',), False)
         if plan['n_sub'] > 1:
             yield replace_at(plan, ('n_sub',), plan['n_sub'] - 1)
         for i, s in enumerate(plan['senders']):
